@@ -402,11 +402,20 @@ def marPattern : Val → R Val
   | .inst _ _ | .opaque _ | .member _ _ => .error .unsupported
   | _ => .error .attribute
 
-/-- The modelled `serdes.strload`. -/
+/-- The modelled `serdes.strload`: the JSON / plain-word fragment `strload?`, plus the canonical
+    UUID text (exactly what `uuidParse?` accepts: 8-4-4-4-12 lowercase hex), which neither
+    `json.loads` nor `ast.literal_eval` accepts (a chain of binary `-` whose right operand is never
+    complex, a name, or a leading-zero SyntaxError) and which therefore loads to itself. -/
 def pySl (s : Str) : R Val :=
   match strload? s with
   | some v => .ok v
-  | none => .error .unsupported
+  | none => if (uuidParse? s).isSome then .ok (.str s) else .error .unsupported
+
+/-- `pySl` as an option (`none` = outside the executable fragment). -/
+def pySl? (s : Str) : Option Val :=
+  match strload? s with
+  | some v => some v
+  | none => if (uuidParse? s).isSome then some (.str s) else none
 
 def pyUm (env : Env) (L : Leaves) (today : Int) : Scalar → Val → R Val
   | .int => umInt env
